@@ -502,8 +502,22 @@ func Run(c Case) int {
 		if waitClosed(rcvDone, 7*time.Second) {
 			l.log(Event{K: "rcvdone", G: name})
 		}
+		// what follows the end of the receiver takes a moment: the receiver closes its streams one after
+		// the other, and a server whose receiver ended on the client's 'finishing' first drains its
+		// dispatch loop and then answers with 'finished'
+		settle := func(ok func() bool, d time.Duration) bool {
+			dl := time.Now().Add(d)
+			for !ok() && time.Now().Before(dl) {
+				time.Sleep(2 * time.Millisecond)
+			}
+			return ok()
+		}
+		settle(func() bool {
+			st := state()
+			return st == lime.SessionStateFinished || st == lime.SessionStateFailed
+		}, 4*time.Second)
 		l.log(Event{K: "peerstate", G: name, Kind: string(state())})
-		if streams() {
+		if settle(streams, time.Second) {
 			l.log(Event{K: "streams", G: name})
 		}
 		if waitClosed(listening, 7*time.Second) {
